@@ -8,6 +8,7 @@ import (
 	"slices"
 	"strings"
 	"sync"
+	"sync/atomic"
 	"time"
 
 	"github.com/gordian-engine/gordian/gexchange"
@@ -41,6 +42,10 @@ type Connection struct {
 	outgoingPrecommitProofs chan tmconsensus.PrecommitSparseProof
 
 	setConsensusHandlerRequests chan setConsensusHandlerRequest
+
+	// The current consensus handler, read by the one permanent topic validator.
+	// Nil means ignore all incoming messages.
+	consensusHandler atomic.Pointer[tmconsensus.ConsensusHandler]
 
 	wg sync.WaitGroup
 
@@ -106,7 +111,10 @@ func NewConnection(ctx context.Context, log *slog.Logger, h *Host, codec tmcodec
 func (c *Connection) background(ctx context.Context) {
 	defer c.wg.Done()
 
-	if err := c.h.PubSub().RegisterTopicValidator(topicConsensus, ignoreMessage); err != nil {
+	// One validator for the lifetime of the connection;
+	// SetConsensusHandler only swaps the handler it consults,
+	// so there is never a moment without a topic validator.
+	if err := c.h.PubSub().RegisterTopicValidator(topicConsensus, c.validateConsensusMessage); err != nil {
 		c.log.Warn("Failed to initialize consensus topic validator", "err", err)
 	}
 
@@ -175,34 +183,10 @@ func (c *Connection) background(ctx context.Context) {
 			}
 
 		case req := <-c.setConsensusHandlerRequests:
-			// There is always a topic validator, so unregister the previous one.
-			if err := c.h.PubSub().UnregisterTopicValidator(topicConsensus); err != nil {
-				c.log.Warn("Failed to unregister previous topic validator for consensus messages", "err", err)
-			}
-
-			// NOTE: there is a potential race right here,
-			// where we temporarily have no topic validator set,
-			// between removing and replacing it.
-			//
-			// Unfortunately it doesn't look like there is a way to atomically swap the validator,
-			// nor is there an obvious way to leave the topic and
-			// instantaneously join it while setting a validator.
-			//
-			// Perhaps the alternative is to have a fixed method as the topic validator,
-			// and use sync/atomic to swap the handler.
-
-			// Always reassign a topic validator.
 			if req.Handler == nil {
-				if err := c.h.PubSub().RegisterTopicValidator(topicConsensus, ignoreMessage); err != nil {
-					c.log.Warn("Failed to register consensus topic validator when clearing handler", "err", err)
-				}
+				c.consensusHandler.Store(nil)
 			} else {
-				if err := c.h.PubSub().RegisterTopicValidator(
-					topicConsensus,
-					c.libp2pConsensusMessageValidator(req.Handler),
-				); err != nil {
-					c.log.Warn("Failed to register topic validator for consensus messages", "err", err)
-				}
+				c.consensusHandler.Store(&req.Handler)
 			}
 
 			close(req.Ready)
@@ -214,6 +198,18 @@ func (c *Connection) background(ctx context.Context) {
 // This is useful as a default strategy before (*Connection).SetConsensusHandler is called.
 func ignoreMessage(context.Context, peer.ID, *pubsub.Message) pubsub.ValidationResult {
 	return pubsub.ValidationIgnore
+}
+
+// validateConsensusMessage is the permanently registered topic validator.
+// It applies the current consensus handler, or ignores the message if there is none.
+func (c *Connection) validateConsensusMessage(
+	ctx context.Context, id peer.ID, msg *pubsub.Message,
+) pubsub.ValidationResult {
+	h := c.consensusHandler.Load()
+	if h == nil {
+		return ignoreMessage(ctx, id, msg)
+	}
+	return c.libp2pConsensusMessageValidator(*h)(ctx, id, msg)
 }
 
 // libp2pConsensusMessageValidator returns a pubsub validator for the consensus message topic.
